@@ -193,11 +193,13 @@ def r11_3(ctx):
     ctx.analysed(cr.qual)
     first = [n for n in cr.node.body if not (isinstance(n, ast.Expr) and isinstance(n.value, ast.Constant))][0]
     construct = "_create_new_deprecated_symbol/only inside the deprecated block"
-    ok = isinstance(first, ast.If) and ast.unparse(first.test) == "not in_deprecated_block" and isinstance(first.body[0], ast.Return)
+    # the block test may sit in the helper (early return) or at every call site - one of them is enough
+    inner = isinstance(first, ast.If) and ast.unparse(first.test) == "not in_deprecated_block" and isinstance(first.body[0], ast.Return)
     calls = [n for n in ast.walk(loop) if isinstance(n, ast.Call) and ast.unparse(n.func) == "_create_new_deprecated_symbol"]
+    ok = True
     for c in calls:
         gs = fl.guards_at(c) or set()
-        ok = ok and ("in_deprecated_block", True) in gs and ("sym", False) in gs
+        ok = ok and (inner or ("in_deprecated_block", True) in gs) and ("sym", False) in gs
     (ctx.ok(construct, cr.loc(first), call_sites=len(calls)) if ok and calls else
      ctx.bad(construct, "a synthetic deprecated symbol can be created outside the deprecated block / for an existing symbol", cr.loc()))
     construct = "_create_new_deprecated_symbol/synthetic symbol never enters the menu tree or unique_defined_syms"
